@@ -200,15 +200,45 @@ Definition eff_kind (target : bytes) (okind : N) : N :=
   if is_empty (take_authority target) then okind
   else if okind =? 1 then 2 else if okind =? 4 then 3 else okind.
 
+(** what can be written into an HTTP/1.1 request line (or an HTTP/2 header field) without changing its framing *)
+Definition wire_ok (s : bytes) : bool :=
+  negb (is_empty s) && forallb (fun c => (32 <? c) && negb (c =? 127)) s.
+
+(** A front end: how a request target (HTTP/1.1) / [:path] (HTTP/2) becomes the URI of the request, which
+    [Origin] headers are the site's own, what the client can put on the connection at all, and whether a HEAD
+    answer arrives without its body. *)
+Record front := {
+  f_uri : bytes -> option (bytes * option bytes);
+  f_kind : bytes -> N -> N;
+  f_sendable : bytes -> bytes -> bool;
+  f_headless : bool
+}.
+(** in process (harness/src/c00pipe.rs make_request) and kvarn's HTTP/1 readers: "http://localhost" ++ target *)
+Definition front_inproc : front :=
+  {| f_uri := target_uri; f_kind := eff_kind; f_sendable := fun _ _ => true; f_headless := false |}.
+Definition front_h1 : front :=
+  {| f_uri := target_uri; f_kind := eff_kind; f_sendable := fun m t => wire_ok m && wire_ok t; f_headless := true |}.
+(** HTTP/2: the h2 crate builds the URI from [:scheme], [:authority] and [PathAndQuery::from_maybe_shared(:path)];
+    the authority is the site's whatever the path is; a CONNECT request carries no [:path].  [front_h2]: the h2
+    crate's client, which sends origin-form paths only; [front_h2raw]: a client that writes the HEADERS frame
+    itself and can put any text into [:path]. *)
+Definition h2_ok (m t : bytes) : bool :=
+  wire_ok m && wire_ok t && starts_with [c_slash] t && negb (beq m (B "CONNECT")).
+Definition front_h2 : front :=
+  {| f_uri := pq_parse; f_kind := fun _ k => k; f_sendable := h2_ok; f_headless := true |}.
+Definition front_h2raw : front :=
+  {| f_uri := pq_parse; f_kind := fun _ k => k;
+     f_sendable := fun m t => wire_ok m && wire_ok t && negb (beq m (B "CONNECT")); f_headless := true |}.
+
 (** one request: the answer as the harness reports it ([fmt]: from the response, the Prepare log and the
     path strings handed to the operating system) and the new state *)
-Definition step_request_with (fmt : cresp -> list bytes -> list bytes -> xval)
+Definition step_request_with (f : front) (fmt : cresp -> list bytes -> list bytes -> xval)
     (c : pcfg) (st : pstate) (m target : bytes) (okind0 : N) : xval * pstate :=
-  match target_uri target with
+  match f_uri f target with
   | None => (XL [XN 96], st)
   | Some (p, q) =>
       let h := pc_host c in
-      let okind := eff_kind target okind0 in
+      let okind := f_kind f target okind0 in
       let ov := override_of (pc_default_ext c) m okind in
       let p' := primed_path h p in
       let '(kpq, kp) := keys_of ov p' q in
@@ -240,7 +270,8 @@ Definition step_request_with (fmt : cresp -> list bytes -> list bytes -> xval)
 
 (** status, body, Prepare log, the objects opened (what inotify reports) *)
 Definition fmt_std (c : pcfg) (cr : cresp) (log os : list bytes) : xval := x_cresp cr log (opens_of c os).
-Definition step_request (c : pcfg) : pstate -> bytes -> bytes -> N -> xval * pstate := step_request_with (fmt_std c) c.
+Definition step_request (c : pcfg) : pstate -> bytes -> bytes -> N -> xval * pstate :=
+  step_request_with front_inproc (fmt_std c) c.
 
 (** status and the distinct path strings handed to the operating system (what a system-call trace of the
     file-related calls shows: open and stat, successful or not), relative to the run directory *)
@@ -262,9 +293,24 @@ Inductive op :=
 | OReq (m t : bytes) (k : N)
 | OAlias (from to_ : bytes).
 
-Definition step_op (c : pcfg) (st : pstate) (o : op) : xval * pstate :=
+Definition strip_head_body (m : bytes) (x : xval) : xval :=
+  if beq m (B "HEAD") then
+    match x with
+    | XL [XN s; XB _; l; o] => XL [XN s; XB []; l; o]
+    | _ => x
+    end
+  else x.
+
+(** one step of a history through the front end [f]: a request the client cannot put on the connection is not
+    sent (96) *)
+Definition step_op_with (f : front) (fmt : cresp -> list bytes -> list bytes -> xval)
+    (c : pcfg) (st : pstate) (o : op) : xval * pstate :=
   match o with
-  | OReq m t k => step_request c st m t k
+  | OReq m t k =>
+      if f_sendable f m t then
+        let '(out, st') := step_request_with f fmt c st m t k in
+        ((if f_headless f then strip_head_body m out else out), st')
+      else (XL [XN 96], st)
   | OAlias from to_ =>
       match (if pc_cache c then cache_get (KPath from) (fst st) else None) with
       | Some cr => (XL [XN 1], ((KPath to_, cr) :: fst st, snd st))
@@ -272,11 +318,16 @@ Definition step_op (c : pcfg) (st : pstate) (o : op) : xval * pstate :=
       end
   end.
 
-Fixpoint run_history (c : pcfg) (st : pstate) (ops : list op) : list xval :=
+Fixpoint run_history_with (f : front) (fmt : cresp -> list bytes -> list bytes -> xval)
+    (c : pcfg) (st : pstate) (ops : list op) : list xval :=
   match ops with
   | [] => []
-  | o :: r => let '(out, st') := step_op c st o in out :: run_history c st' r
+  | o :: r => let '(out, st') := step_op_with f fmt c st o in out :: run_history_with f fmt c st' r
   end.
+
+(** the in-process history *)
+Definition step_op (c : pcfg) : pstate -> op -> xval * pstate := step_op_with front_inproc (fmt_std c) c.
+Definition run_history (c : pcfg) : pstate -> list op -> list xval := run_history_with front_inproc (fmt_std c) c.
 
 Definition empty_state : pstate := ([], []).
 
@@ -315,23 +366,18 @@ Definition decode_scenario (x : xval) : option (pcfg * list op) :=
   | _ => None
   end.
 
-(** input: (L (L default_ext cache fcache (B public_dir) files handlers options) requests), see harness/src/c01pipe.rs *)
-Definition run_pipe (x : xval) : xval :=
-  match decode_scenario x with
-  | Some (c, reqs) => XL (run_history c empty_state reqs)
-  | None => bad_input
-  end.
-
-(** Spec component, independent of [serve] and of [sanitize_path]: per request, must the answer be
+(** Spec component, independent of [serve_st] and of [sanitize_path]: per request, must the answer be
     400?  — exactly when the percent-decoded bytes of the URI path are [unsafe_b]. *)
-Definition spec_request (o : op) : xval :=
+Definition spec_request (f : front) (o : op) : xval :=
   match o with
   | OAlias _ _ => XN 97
-  | OReq _ t _ =>
-      match target_uri t with
-      | None => XN 96
-      | Some (p, _) => x_bool (unsafe_b (percent_decode p))
-      end
+  | OReq m t _ =>
+      if f_sendable f m t then
+        match f_uri f t with
+        | None => XN 96
+        | Some (p, _) => x_bool (unsafe_b (percent_decode p))
+        end
+      else XN 96
   end.
 
 (** is the host's configuration benign (hypothesis of the confinement theorems)?  executable form of
@@ -340,112 +386,30 @@ Definition benign_suffix_b (a : bytes) : bool :=
   negb (has_dot_slash_b (percent_decode a)) && negb (match percent_decode a with c :: _ => c =? c_slash | [] => false end).
 Definition benign_host_b (h : host_cfg) : bool := benign_suffix_b (h_ext_default h) && benign_suffix_b (h_folder_default h).
 
-(** output: (L (N benign) per-request ...) *)
-Definition run_pipe_spec (x : xval) : xval :=
+(** [pathsanpipe.run] (in process), [pathsanpipe.wire] (HTTP/1.1 text to [kvarn::handle_connection] over a
+    loopback connection), [pathsanpipe.h2] (TLS + HTTP/2, the h2 crate's client), [pathsanpipe.h2raw] (TLS + HTTP/2,
+    hand-written HEADERS frames: any [:path]), [pathsanpipe.sys] (in process under a system-call trace).
+    input: (L (L default_ext cache fcache (B public_dir) files handlers options) requests), see harness/src/c01pipe.rs.
+    The spec components' output: (L (N benign) per-request ...). *)
+Definition run_front (f : front) (sys : bool) (x : xval) : xval :=
   match decode_scenario x with
-  | Some (c, reqs) => XL (x_bool (benign_host_b (pc_host c)) :: map spec_request reqs)
+  | Some (c, reqs) => XL (run_history_with f (if sys then fmt_sys else fmt_std c) c empty_state reqs)
   | None => bad_input
   end.
-
-(** ---------------------------------------------------------------------------
-    The same history written as HTTP/1.1 text to [kvarn::handle_connection] over a loopback
-    connection ([pathsanpipe.wire]): a request line cannot carry bytes <= ' ' or DEL (not sent: 96), a
-    HEAD answer has no body; everything else is [step_op]. *)
-Definition wire_ok (s : bytes) : bool :=
-  negb (is_empty s) && forallb (fun c => (32 <? c) && negb (c =? 127)) s.
-Definition strip_head_body (m : bytes) (x : xval) : xval :=
-  if beq m (B "HEAD") then
-    match x with
-    | XL [XN s; XB _; l; o] => XL [XN s; XB []; l; o]
-    | _ => x
-    end
-  else x.
-Definition step_op_wire (c : pcfg) (st : pstate) (o : op) : xval * pstate :=
-  match o with
-  | OReq m t k =>
-      if wire_ok m && wire_ok t then
-        let '(out, st') := step_request c st m t k in (strip_head_body m out, st')
-      else (XL [XN 96], st)
-  | OAlias _ _ => step_op c st o
-  end.
-Fixpoint run_history_wire (c : pcfg) (st : pstate) (ops : list op) : list xval :=
-  match ops with
-  | [] => []
-  | o :: r => let '(out, st') := step_op_wire c st o in out :: run_history_wire c st' r
-  end.
-Definition run_pipe_wire (x : xval) : xval :=
+Definition run_front_spec (f : front) (x : xval) : xval :=
   match decode_scenario x with
-  | Some (c, reqs) => XL (run_history_wire c empty_state reqs)
+  | Some (c, reqs) => XL (x_bool (benign_host_b (pc_host c)) :: map (spec_request f) reqs)
   | None => bad_input
   end.
-Definition spec_request_wire (o : op) : xval :=
-  match o with
-  | OReq m t _ => if wire_ok m && wire_ok t then spec_request o else XN 96
-  | OAlias _ _ => XN 97
-  end.
-Definition run_pipe_spec_wire (x : xval) : xval :=
-  match decode_scenario x with
-  | Some (c, reqs) => XL (x_bool (benign_host_b (pc_host c)) :: map spec_request_wire reqs)
-  | None => bad_input
-  end.
-
-(** The same over TLS + HTTP/2 ([pathsanpipe.h2]): the client (h2 crate) can only send a [:path] that
-    [http::uri::PathAndQuery] accepts; the harness sends origin-form targets (and what the server's
-    h2 layer refuses is 96 on both sides: the same [pq_parse]); a CONNECT request carries no [:path] in HTTP/2
-    and is not sent *)
-Definition h2_ok (m t : bytes) : bool :=
-  wire_ok m && wire_ok t && starts_with [c_slash] t && negb (beq m (B "CONNECT")).
-Definition step_op_h2 (c : pcfg) (st : pstate) (o : op) : xval * pstate :=
-  match o with
-  | OReq m t k =>
-      if h2_ok m t then
-        let '(out, st') := step_request c st m t k in (strip_head_body m out, st')
-      else (XL [XN 96], st)
-  | OAlias _ _ => step_op c st o
-  end.
-Fixpoint run_history_h2 (c : pcfg) (st : pstate) (ops : list op) : list xval :=
-  match ops with
-  | [] => []
-  | o :: r => let '(out, st') := step_op_h2 c st o in out :: run_history_h2 c st' r
-  end.
-Definition run_pipe_h2 (x : xval) : xval :=
-  match decode_scenario x with
-  | Some (c, reqs) => XL (run_history_h2 c empty_state reqs)
-  | None => bad_input
-  end.
-Definition spec_request_h2 (o : op) : xval :=
-  match o with
-  | OReq m t _ => if h2_ok m t then spec_request o else XN 96
-  | OAlias _ _ => XN 97
-  end.
-Definition run_pipe_spec_h2 (x : xval) : xval :=
-  match decode_scenario x with
-  | Some (c, reqs) => XL (x_bool (benign_host_b (pc_host c)) :: map spec_request_h2 reqs)
-  | None => bad_input
-  end.
-
-(** [pathsanpipe.sys]: the in-process history under a system-call trace *)
-Definition step_op_sys (c : pcfg) (st : pstate) (o : op) : xval * pstate :=
-  match o with
-  | OReq m t k => step_request_with fmt_sys c st m t k
-  | OAlias _ _ => step_op c st o
-  end.
-Fixpoint run_history_sys (c : pcfg) (st : pstate) (ops : list op) : list xval :=
-  match ops with
-  | [] => []
-  | o :: r => let '(out, st') := step_op_sys c st o in out :: run_history_sys c st' r
-  end.
-Definition run_pipe_sys (x : xval) : xval :=
-  match decode_scenario x with
-  | Some (c, reqs) => XL (run_history_sys c empty_state reqs)
-  | None => bad_input
-  end.
+Definition run_pipe : xval -> xval := run_front front_inproc false.
 
 Definition pathsanpipe_table : list (bytes * (xval -> xval)) :=
-  [ (B "pathsanpipe.run", run_pipe);
-    (B "pathsanpipe.spec", run_pipe_spec);
-    (B "pathsanpipe.wire", run_pipe_wire);
-    (B "pathsanpipe.wire_spec", run_pipe_spec_wire);
-    (B "pathsanpipe.h2", run_pipe_h2);
-    (B "pathsanpipe.h2_spec", run_pipe_spec_h2);
-    (B "pathsanpipe.sys", run_pipe_sys) ].
+  [ (B "pathsanpipe.run", run_front front_inproc false);
+    (B "pathsanpipe.spec", run_front_spec front_inproc);
+    (B "pathsanpipe.wire", run_front front_h1 false);
+    (B "pathsanpipe.wire_spec", run_front_spec front_h1);
+    (B "pathsanpipe.h2", run_front front_h2 false);
+    (B "pathsanpipe.h2_spec", run_front_spec front_h2);
+    (B "pathsanpipe.h2raw", run_front front_h2raw false);
+    (B "pathsanpipe.h2raw_spec", run_front_spec front_h2raw);
+    (B "pathsanpipe.sys", run_front front_inproc true) ].
